@@ -72,10 +72,10 @@ type Sim struct {
 	ended bool
 	done  chan struct{}
 
-	Viol      *Violation
+	Viol *Violation
 	// Findings are violations of directed sub-programs that do not end the run
 	// (used for known findings, so that they cannot starve the search).
-	Findings []Violation
+	Findings  []Violation
 	Exited    bool
 	ExitCode  int
 	Truncated bool
